@@ -13,7 +13,7 @@ CASE_TIMEOUT = 30.0
 RULE = ('bpch contents with 1-3 time blocks x 1-3 tracers in 1-3 categories, nx,ny 1-3, per-tracer layer counts 1-3 (rarely 48/49), nested-grid '
         'offsets, tracerinfo.dat/diaginfo.dat generated as text (category offsets 0/100/1000/2000, entries present or missing); three directions: '
         'rw = reference-encoded file -> bpch1 (noscale or scaled) -> ncf2bpch; wr = hand-built bpch-convention file -> ncf2bpch -> bpch1; '
-        'b2 = bpch2 vs bpch1. Data: arbitrary finite binary32 patterns (noscale) or small dyadic values whose product with SCALE is exact (scaled). '
+        'b2 = bpch2 AND bpch1 on the same file (60% with complete tables, else any tables), both evaluated in Coq. Data: arbitrary finite binary32 patterns (noscale) or small dyadic values whose product with SCALE is exact (scaled). '
         'Malformed stream: byte truncations (random, block/time-block boundaries +-, one header further; S = every-prefix alternatives), trailing words, edits of record markers / tracer ids / categories / skip / dims / title markers. '
         'Non-trivial = library opened the file and presented >= 1 variable.')
 TRUSTED = ['numpy structured dtype over a memmap = fixed-size chunking (modelled by chunks/firstn/skipn)',
@@ -23,18 +23,18 @@ TRUSTED = ['numpy structured dtype over a memmap = fixed-size chunking (modelled
            'variable keys "<category>_<name>" are mapped back to (category, name index) by the harness; names are alphabetic']
 ASSUMPTIONS = ['table keys unique (tracer numbers in tracerinfo.dat, categories in diaginfo.dat); no two tracers of a file share offset+id',
                'one model grid per file and one time stamp per time block (what GEOS-Chem writes)']
-LEVEL_TEXT = ('Theorems (Props/C18.v, all closed under the global context) over Model/Bpch.v (the repaired header walk and warning): the record-walking spec '
-              'decoder inverts the spec encoder for every content (C18_dec_enc); for EVERY bpch-convention content (any number of time blocks, tracers, layers, nested '
-              'offsets) and tables with unique keys the model of bpch1 (header walk, time_type strides, itemcount, assertions; field positions from the translated dtype '
-              'literals) presents exactly the content (C18_reader_presents_content), ncf2bpch reproduces the words (C18_read_write_bytes; the writer alone: '
-              'C18_writer_conforms), writing any bpch-convention view and reading it back returns it (C18_write_read); the dict-based name/scale/unit lookup is the '
-              'offset(category)+id association (C18_scale_lookup, C18_lookup_is_association); reader/writer layouts and pads agree (C18_layouts, re-checked against the '
-              'source on every run). EVERY BYTE PREFIX (C18_every_prefix, C14 for bpch): the reader either raises, or presents exactly the first k whole time blocks, or - '
-              'cut exactly at a tracer boundary inside the first time block - one time block with the first j tracers; the last alternative is real '
-              '(C18_prefix_whole_time_blocks_only_refuted, vm_compute witness that replays on the library: a bpch file has no tracer count). Tie T: dtype literals, pads '
-              'and skip regenerated from _bpch.py into coq/Gen/Bpch.v; tie H: reference encoder == Coq enc, bpch1 == impl_open (incl. every error outcome on the malformed '
-              'stream and the every-prefix alternatives on the cut stream, S), ncf2bpch == impl_write on every case. Clause 4 (bpch2) has no theorem: bpch2 cannot run on '
-              'numpy 2 (known finding, region 1) and is not modelled.')
+LEVEL_TEXT = ('Theorems (Props/C18.v, 13, all closed under the global context) over Model/Bpch.v (both readers and the writer as repaired): the record-walking spec '
+              'decoder inverts the spec encoder for every content (C18_dec_enc); for EVERY bpch-convention content and tables with unique keys the model of bpch1 (header '
+              'walk, time_type strides, itemcount, assertions; field positions from the translated dtype literals) presents exactly the content '
+              '(C18_reader_presents_content), ncf2bpch reproduces the words (C18_read_write_bytes, C18_writer_conforms), writing any bpch-convention view and reading it '
+              'back returns it (C18_write_read); the dict-based name/scale/unit lookup is the offset(category)+id association (C18_scale_lookup, '
+              'C18_lookup_is_association); layouts and pads agree (C18_layouts, re-checked against the source on every run). CLAUSE 4: the model of the block-walking '
+              'reader bpch2 (walk over every block, groups by key in order of first appearance, first-row table lookups) presents a closed form '
+              '(C18_bpch2_presents_content_partial) and the SAME variables, time stamps and data as bpch1 (C18_readers_agree_partial) for every file whose categories and '
+              'tracer numbers are all in the tables and whose time stamps differ; without table completeness it raises (C18_readers_agree_refuted, witness replays: '
+              'finding C18-bpch2-missing-table-entry). EVERY BYTE PREFIX (C18_every_prefix; C18_prefix_whole_time_blocks_only_refuted). Tie T: dtype literals, pads and '
+              'skip regenerated from _bpch.py into coq/Gen/Bpch.v; tie H: reference encoder == Coq enc, bpch1 == impl_open (incl. errors on the malformed stream), '
+              'ncf2bpch == impl_write, bpch2 == impl_bpch2 on every case.')
 LEVEL_NOTE = ('Trusted: Coq kernel + vm_compute, py2coq and the driver normalisation, the harness (observation of the library object, string pools). Scaled WRITE '
               '(vals / scale) is checked on exact values by correspondence only; inexact binary32 scaling is decided by a Python oracle.')
 TECHNIQUE = 'Coq proof (codec round trip, reader/writer model refinement over Fortran record framing) + translation from source + differential correspondence'
@@ -124,7 +124,7 @@ def _pad(rng, s, n, allow_nul=False):
     return s.ljust(n, '\0' if (allow_nul and rng.random() < 0.5) else ' ')
 
 
-def gen_content(rng, tier, scaled, wr):
+def gen_content(rng, tier, scaled, wr, full_tables=False):
     ncat = rng.randint(1, 3)
     cats = rng.sample(CATS, ncat)
     ntr = rng.randint(1, 3)
@@ -133,7 +133,7 @@ def gen_content(rng, tier, scaled, wr):
     pool_off = [0, 100, 1000, 2000]
     rng.shuffle(pool_off)
     for i, c in enumerate(cats):
-        if rng.random() < 0.8:
+        if full_tables or rng.random() < 0.8:
             offs[c] = pool_off[i]
             dinfo.append(dict(offset=pool_off[i], cat=c))
     if rng.random() < 0.3:   # an unrelated category line
@@ -164,7 +164,7 @@ def gen_content(rng, tier, scaled, wr):
     for tr in tracers:
         o = tr['tid'] + offs.get(tr['cat'].strip(), 0)
         r = rng.random()
-        if r < 0.75 and o not in have:
+        if (full_tables or r < 0.75) and o not in have:
             tinfo.append(dict(name=names.pop(), ord=o, scale=rng.choice(SCALES), unit=rng.choice(UNITS), molwt=rng.choice([0.046, 0.048, 0.121]), c=rng.choice([1, 3, 4])))
             have.add(o)
         elif r < 0.9 and tr['tid'] not in have and tr['tid'] not in ords:
@@ -249,9 +249,10 @@ def gen(rng, n, tier):
     out = []
     for i in range(n):
         r = rng.random()
-        if r < 0.08:
-            c = gen_content(rng, tier, False, False)
-            out.append(dict(kind='b2-second-reader', mode='b2', noscale=True, content=c, mut=None))
+        if r < 0.12:
+            full = rng.random() < 0.6
+            c = gen_content(rng, tier, False, False, full_tables=full)
+            out.append(dict(kind='b2-complete-tables' if full else 'b2-any-tables', mode='b2', noscale=True, content=c, mut=None))
             continue
         wr = 0.55 <= r < 0.8
         mal = r >= 0.8
@@ -306,6 +307,31 @@ def observe(f, nvars_hint=None):
     out['vars'] = vs
     tb = np.asarray(f.variables['time_bounds'][...], dtype='>f8')
     out['taus'] = [np.ascontiguousarray(tb[t]).view('>u4').astype('int64').ravel().tolist() for t in range(tb.shape[0])]
+    return out
+
+
+def observe2(f2):
+    """what the block-walking reader presents: per variable (its own order) ids, attributes and data per time"""
+    import numpy as np
+    out = {}
+    out['ftype'] = _bytes_words(f2.ftype if isinstance(f2.ftype, bytes) else str(f2.ftype).encode('latin-1'), 40)
+    out['title'] = _bytes_words(f2.toptitle if isinstance(f2.toptitle, bytes) else str(f2.toptitle).encode('latin-1'), 80)
+    vs = []
+    for k in list(f2._gcvars.keys()):
+        v = f2.variables[k]
+        arr = np.asarray(v[...])
+        bu = v.base_units
+        vs.append(dict(key=k, cat=str(v.category), tid=int(v.tracerid),
+                       unit0=_bytes_words(bu if isinstance(bu, bytes) else str(bu).encode('latin-1'), 40),
+                       shape=[int(x) for x in arr.shape], dims=list(v.dimensions),
+                       start=[int(getattr(v, a_, 0)) + 1 for a_ in ('STARTI', 'STARTJ', 'STARTK')],
+                       scale=float(v.scale).hex(), units=dict(s=str(v.units)), has_reserved=hasattr(v, 'reserved'),
+                       data=[np.ascontiguousarray(arr[t], dtype='>f4').view('>u4').astype('int64').ravel().tolist() for t in range(arr.shape[0])]))
+    out['vars'] = vs
+    t0 = np.asarray(f2.variables['tau0'][...]); t1 = np.asarray(f2.variables['tau1'][...])
+    out['tau_dtype'] = str(t0.dtype)
+    # bpch2 stores tau0/tau1 as integers; whole-hour stamps (all that is generated) convert back exactly
+    out['taus'] = [f64words(float(a)) + f64words(float(b)) for a, b in zip(t0.tolist(), t1.tolist())]
     return out
 
 
@@ -407,11 +433,7 @@ def impl(case):
             try:
                 with contextlib.redirect_stdout(sink):
                     f2 = bpch2(p, noscale=True)
-                    o2 = {}
-                    for v in obs.get('vars', []):
-                        arr = np.asarray(f2.variables[v['key']][...])
-                        o2[v['key']] = [np.ascontiguousarray(arr[t], dtype='>f4').view('>u4').astype('int64').ravel().tolist() for t in range(arr.shape[0])]
-                obs['b2'] = dict(ok=True, data=o2)
+                    obs['b2'] = dict(ok=True, **observe2(f2))
             except Exception as e:
                 obs['b2'] = dict(ok=False, err='%s: %s' % (type(e).__name__, str(e)[:120]))
     finally:
@@ -456,14 +478,13 @@ def coq_file(c):
 
 
 EMPTY_VIEW = '{| r_ftype := []; r_title := []; r_model := []; r_nx := 0; r_ny := 0; r_vars := []; r_taus := []; r_data := [] |}'
+EMPTY_VIEW2 = '{| s_ftype := []; s_title := []; s_vars := []; s_taus := []; s_data := [] |}'
 
 
-def coq_view(c, obs):
-    if not obs.get('open_ok'):
-        return EMPTY_VIEW
+def coq_vars(c, ovars, resv=True):
     names, units = pools(c)
     vs = []
-    for v in obs['vars']:
+    for v in ovars:
         key, cat = v['key'], v['cat']
         nm = key[len(cat) + 1:] if key.startswith(cat + '_') else None
         if nm is not None and nm in names:
@@ -482,9 +503,28 @@ def coq_view(c, obs):
             else:
                 tu = '(UHdr %s)' % C.zlist(swords(u['b'].ljust(40)[:40]))
         nt, nz, ny, nx = v['shape']
+        if not resv:
+            v = dict(v, resv=[])
         vs.append('{| v_cat := %s; v_name := %s; v_tid := %d; v_unit0 := %s; v_resv := %s; v_nx := %d; v_ny := %d; v_nz := %d; v_start := %s; '
                   'v_scale := %s; v_unit := %s |}' % (C.zlist(swords(cat.ljust(40)[:40])), tn, v['tid'], C.zlist(v['unit0']), C.zlist(v['resv']),
                                                      nx, ny, nz, C.zlist(v['start']), qlit(float.fromhex(v['scale'])), tu))
+    return vs
+
+
+def coq_view2(c, obs):
+    b2 = obs.get('b2') or {}
+    if not b2.get('ok'):
+        return EMPTY_VIEW2
+    vs = coq_vars(c, b2['vars'], resv=False)
+    data = '[' + '; '.join(C.zll(v['data']) for v in b2['vars']) + ']'
+    return '{| s_ftype := %s; s_title := %s; s_vars := [%s]; s_taus := %s; s_data := %s |}' % (
+        C.zlist(b2['ftype']), C.zlist(b2['title']), '; '.join(vs), C.zll(b2['taus']), data)
+
+
+def coq_view(c, obs):
+    if not obs.get('open_ok'):
+        return EMPTY_VIEW
+    vs = coq_vars(c, obs['vars'])
     ntime = obs['ntime']
     data = '[' + '; '.join(C.zll([v['data'][t] for v in obs['vars']]) for t in range(ntime)) + ']'
     return ('{| r_ftype := %s; r_title := %s; r_model := %s; r_nx := %d; r_ny := %d; r_vars := [%s]; r_taus := %s; r_data := %s |}' % (
@@ -492,20 +532,21 @@ def coq_view(c, obs):
 
 
 def coq_term(case, obs):
-    if 'raises' in obs or case['mode'] == 'b2':
+    if 'raises' in obs:
         return None
     c = case['content']
     if case['mode'] == 'wr' and 'written' not in obs:
         return None   # decided by py_check (writer raised)
     T, D = coq_tables(c)
     ref = encode(c)
-    mode = 0 if case['mode'] == 'rw' else 1
+    mode = {'rw': 0, 'wr': 1, 'b2': 2}[case['mode']]
     # well-formed mode-0 cases give the library exactly the reference encoding: the words are not repeated in the term
     ws = obs.get('ws', []) if (mode == 0 and case.get('mut') is not None) else []
-    return '(Case %d %s %s %s %s %s %d %s %s %s %s %s %s)' % (
+    return '(Case %d %s %s %s %s %s %d %s %s %s %s %s %s %s %s)' % (
         mode, T, D, coq_file(c), C.zlist(ref), C.zlist(ws), obs.get('size', 0), C.cbool(case.get('mut') is not None),
         C.cbool(not case['noscale']), C.cbool(obs.get('open_ok', False)), coq_view(c, obs),
-        C.cbool('written' in obs), C.zlist(obs.get('written', [])))
+        C.cbool('written' in obs), C.zlist(obs.get('written', [])),
+        C.cbool(bool((obs.get('b2') or {}).get('ok'))), coq_view2(c, obs))
 
 
 # ----------------------------------------------------------------------------- independent Python oracle
@@ -529,9 +570,14 @@ def py_lookup(tabs, tr):
     return str(tr['tid']), 1.0, tr['unit'].rstrip('\0').strip().encode('latin-1')
 
 
+def tables_complete(c):
+    td, dd = lookup_tables(c)
+    return all(tr['cat'].strip() in dd and (tr['tid'] + dd[tr['cat'].strip()]) in td for tr in c['tracers'])
+
+
 def region_of(case):
     c = case['content']
-    if case['mode'] == 'b2':
+    if case['mode'] == 'b2' and not tables_complete(c):
         return 1
     return 0
 
@@ -544,15 +590,27 @@ def py_check(case, obs):
     reg = region_of(case)
     why = []
     if case['mode'] == 'b2':
+        # independent comparison of the two readers' presentations (clause 4)
         b2 = obs.get('b2') or {}
         if not b2.get('ok'):
             why.append('bpch2 raised ' + str(b2.get('err')))
         elif not obs.get('open_ok'):
             why.append('bpch1 raised ' + str(obs.get('open_error')))
         else:
-            for v in obs['vars']:
-                if b2['data'].get(v['key']) != v['data']:
+            v1 = {(v['cat'], v['tid']): v for v in obs['vars']}
+            if [(v['cat'], v['tid']) for v in b2['vars']] != [(v['cat'], v['tid']) for v in obs['vars']]:
+                why.append('bpch2 presents variables %s, bpch1 %s' % ([v['key'] for v in b2['vars']], [v['key'] for v in obs['vars']]))
+            for v in b2['vars']:
+                w = v1.get((v['cat'], v['tid']))
+                if w is None:
+                    continue
+                if v['data'] != w['data']:
                     why.append('bpch2 data differ for ' + v['key'])
+                for fld in ('key', 'scale', 'units', 'unit0', 'start', 'shape'):
+                    if v[fld] != w[fld]:
+                        why.append('bpch2 %s of %s is %r, bpch1 has %r' % (fld, v['key'], v[fld], w[fld]))
+            if b2['taus'] != obs['taus']:
+                why.append('bpch2 time stamps differ')
         return dict(s_ok=not why, region=reg, why='; '.join(why[:3]))
     if case.get('mut') is not None:
         return dict(s_ok=True, region=0, why='')
